@@ -87,7 +87,8 @@ def config(
     if tgt == "ZA":
         a = round(draw(st.floats(1.0, 240.0)), 3)
         z = round(draw(st.floats(0.0, 1.0)) * a, 3)
-        tgt = {"Z": z, "A": a}
+        # both spellings of the mapping: Z first (as in the docs) and A first (what a YAML/tar round trip, which sorts keys, hands back)
+        tgt = {"Z": z, "A": a} if draw(st.booleans()) else {"A": a, "Z": z}
     ob["TargetDIS"] = tgt
     if nc_pos and process != "CC":
         ob["NCPositivityCharge"] = draw(
